@@ -41,17 +41,27 @@ def stmt_failure(desc, frame, peaks, v, offset, method, upsample=False):
         pass
     t = run(pattern, fr2, pk2)
     if not np.array_equal(t[0], base[0] + np.array(v)):
-        return 'translation by %s: centres %s, expected %s' % (v, t[0].tolist(), (base[0] + np.array(v)).tolist())
-    for f in (close(t[1], base[1] + np.array(v, dtype=np.float64), rt, 1.0, 'translation by %s: refined' % (v,)),
+        # centres may differ only between (near-)equal maxima: FFT round-off depends on the absolute position
+        maps, scale = cl.oracle_maps(pattern, frame, peaks, method)
+        c = pattern.get_crop_size()
+        for i in range(len(peaks)):
+            a = base[0][i] - np.array(peaks[i]) + c
+            b = t[0][i] - np.array(pk2[i]) + c
+            if not (0 <= b[0] < 2 * c and 0 <= b[1] < 2 * c) or abs(maps[i][a[0], a[1]] - maps[i][b[0], b[1]]) > 3e-4 * scale + 2e-3:
+                return 'translation by %s: centres %s, expected %s' % (v, t[0].tolist(), (base[0] + np.array(v)).tolist())
+        keep = [i for i in range(len(peaks)) if np.array_equal(t[0][i], base[0][i] + np.array(v))]
+    else:
+        keep = list(range(len(peaks)))
+    for f in (close(t[1][keep], (base[1] + np.array(v, dtype=np.float64))[keep], rt, 1.0, 'translation by %s: refined' % (v,)),
               close(t[2], base[2], rt, sc, 'translation by %s: heights' % (v,)),
-              close(t[3], base[3], rt, sc, 'translation by %s: elevations' % (v,))):
+              close(t[3][keep], base[3][keep], rt, sc, 'translation by %s: elevations' % (v,))):
         if f:
             return f
     # translation with DFT upsampling on (refined positions only change)
     if upsample:
         b2 = run(pattern, frame, peaks, upsample=upsample)
         t2 = run(pattern, fr2, pk2, upsample=upsample)
-        f = close(t2[1], b2[1] + np.array(v, dtype=np.float64), 1e-5, 100.0, 'translation by %s with upsample=%s: refined' % (v, upsample))
+        f = close(t2[1][keep], (b2[1] + np.array(v, dtype=np.float64))[keep], 1e-5, 100.0, 'translation by %s with upsample=%s: refined' % (v, upsample))
         if f:
             return f
     # transpose
